@@ -423,10 +423,11 @@ func (im *Impl) checkAddNamespacedName(fd *ast.FuncDecl) string {
 	for pi, path := range ps {
 		empty := "?"
 		var vals []string
+		pl := im.newPathLocals(fd)
 		for _, it := range path {
 			switch {
 			case it.Cond != nil:
-				c := im.canon(fd, it.Cond)
+				c := pl.canon(it.Cond)
 				switch c {
 				case nsExpr + ` == ""`, `"" == ` + nsExpr, "len(" + nsExpr + ") == 0":
 					empty = map[bool]string{true: "yes", false: "no"}[it.Truth]
@@ -436,9 +437,12 @@ func (im *Impl) checkAddNamespacedName(fd *ast.FuncDecl) string {
 					return "condition " + c
 				}
 			case it.Stmt != nil:
+				if pl.note(it.Stmt) {
+					continue
+				}
 				if as, ok := it.Stmt.(*ast.AssignStmt); ok && len(as.Lhs) == 1 && len(as.Rhs) == 1 {
-					if im.canon(fd, as.Lhs[0]) == "recv.ResolvedNames[p1]" {
-						vals = append(vals, im.canon(fd, as.Rhs[0]))
+					if pl.canon(as.Lhs[0]) == "recv.ResolvedNames[p1]" {
+						vals = append(vals, pl.canon(as.Rhs[0]))
 					}
 				}
 			}
@@ -504,7 +508,12 @@ func NamespaceSwitch(p *load.Program, tb *kinds.Table, rel, recv string) *report
 		key := fmt.Sprintf("StmtNamespace/path%d", i)
 		nameNil := "?"
 		var assigned ast.Expr
+		pl := im.newPathLocals(fd)
+		argText := ""
 		for _, it := range path {
+			if it.Stmt != nil && pl.note(it.Stmt) {
+				continue
+			}
 			if it.Cond != nil {
 				if f, neq, ok := im.nilTest(it.Cond, func(e ast.Expr) (string, bool) { return im.fieldOf(e, im.paramObj(fd, 0)) }); ok && f == "Name" {
 					isNil := neq != it.Truth
@@ -516,6 +525,9 @@ func NamespaceSwitch(p *load.Program, tb *kinds.Table, rel, recv string) *report
 			if as, ok := it.Stmt.(*ast.AssignStmt); ok && len(as.Lhs) == 1 {
 				if f, ok := im.fieldOf(as.Lhs[0], recvO); ok && f == "Namespace" {
 					assigned = as.Rhs[0]
+					if c, ok := unparen(assigned).(*ast.CallExpr); ok && len(c.Args) == 1 {
+						argText = pl.canon(c.Args[0]) // with what the locals hold at this point of the path
+					}
 				}
 			}
 		}
@@ -528,7 +540,7 @@ func NamespaceSwitch(p *load.Program, tb *kinds.Table, rel, recv string) *report
 			res.Bad(key, im.pos(assigned), "StmtNamespace", "the namespace context is not a fresh NewNamespace(...): "+exprString(assigned))
 			continue
 		}
-		arg := im.canon(fd, call.Args[0])
+		arg := argText
 		switch nameNil {
 		case "nil":
 			res.Check(arg == `""`, key, im.pos(assigned), "StmtNamespace", "no name: global namespace", "namespace without a name must switch to the global namespace, found "+arg)
@@ -609,6 +621,9 @@ func AliasKeyAgreement(p *load.Program, rel string) *report.RuleResult {
 				}
 				switch x := e.(type) {
 				case *ast.Ident:
+					if k, ok := info.Uses[x].(*types.Const); ok && k.Val().Kind() == constant.String {
+						return sv{what: "const:" + constant.StringVal(k.Val())}, true // a named constant
+					}
 					v, ok := env[info.Uses[x]]
 					return v, ok
 				case *ast.CallExpr:
@@ -638,8 +653,14 @@ func AliasKeyAgreement(p *load.Program, rel string) *report.RuleResult {
 					case isBin && (be.Op == token.EQL || be.Op == token.NEQ):
 						l, okl := evalS(be.X)
 						r, okr := evalS(be.Y)
-						if okl && okr && l.what == "type" && strings.HasPrefix(r.what, "const:") {
+						if okl && okr && strings.HasPrefix(l.what, "const:") && r.what == "type" {
+							l, r = r, l // "const" == aliasType
+						}
+						if okl && okr && (l.what == "type" || strings.HasPrefix(l.what, "const:")) && strings.HasPrefix(r.what, "const:") {
 							at := aliasType
+							if strings.HasPrefix(l.what, "const:") {
+								at = strings.TrimPrefix(l.what, "const:") // the variable was assigned a constant on this path
+							}
 							if l.lower {
 								at = strings.ToLower(at)
 							}
